@@ -208,8 +208,8 @@ theorem setNew_progress_bound (c : Config α) (s s' : State α) (fin : Bool) (d 
   by_cases hc : calcDef c (s.numIter + 1) = true <;> simp_all
 
 /-- `_set_initial_defect` -/
-theorem setInitial_spec (c : Config α) (fin : Bool) (d : α) (st : Status) (s : State α)
-    (h : setInitialDefect c fin d = (st, s)) :
+theorem setInitial_spec (c : Config α) (prev : State α) (fin : Bool) (d : α) (st : Status) (s : State α)
+    (h : setInitialDefect c prev fin d = (st, s)) :
     s = { defInit := d, defCur := d, defPrev := d, numIter := 0, numStag := 0, curFin := fin } ∧
     (st = .aborted ↔ fin = false) ∧
     (st = .success ↔ fin = true ∧ (d < c.tolAbsLow ∨ d ≤ c.eps2)) ∧
@@ -250,5 +250,11 @@ theorem feed_last_stagnated (c : Config α) (upd : Bool) (ds : List (Bool × α)
       rw [he] at hr
       have := (analyse_spec c _ _ _ _ hr).2.2.2.2.1 rfl
       exact ⟨this.2.1, this.2.2.2.2.1⟩
+
+/-- `_set_initial_defect` overwrites the whole convergence-control state: what the previous solve left is irrelevant -/
+theorem setInitial_indep (c : Config α) (prev1 prev2 : State α) (fin : Bool) (d : α) :
+    setInitialDefect c prev1 fin d = setInitialDefect c prev2 fin d := by
+  unfold setInitialDefect
+  rfl
 
 end FeatModel.Solver
